@@ -7,11 +7,6 @@ From MV Require Import Model.Proxy Model.ProxySpec Proofs.ProxyReach Proofs.Prox
 Import ListNotations RecordSetNotations.
 Open Scope Z_scope.
 
-(* a run from the initial state: final state and trace summary *)
-Definition final (src : srcp) (c : cfg) (sched : list step) : st := fst (run src c (init_st 0) sched).
-Definition trace (src : srcp) (c : cfg) (sched : list step) : list out := snd (run src c (init_st 0) sched).
-Definition summ (src : srcp) (c : cfg) (sched : list step) : gs := gs_outs gs0 (trace src c sched).
-
 Ltac fam_conj c sched Hc Hs :=
   pose proof (family_run c Hc sched Hs) as H; unfold good_all in H;
   repeat match type of H with (_ && _) = true => let H2 := fresh "G" in apply andb_prop in H as [H H2] end.
@@ -180,27 +175,27 @@ Lemma refuted_loop : ~ outcome_statement proxy_src.
 Proof.
   intros H. destruct witness_loop as (Hq & _ & _ & _ & _ & Hbad).
   pose proof (outcome_ok_of cfg_loop sched_loop proxy_src Hq (H cfg_loop sched_loop Hq)) as K.
-  unfold final, trace in K. rewrite K in Hbad. exact (Bool.diff_true_false Hbad).
+  rewrite K in Hbad. exact (Bool.diff_true_false Hbad).
 Qed.
 Lemma refuted_nog : ~ outcome_statement proxy_src.
 Proof.
   intros H. destruct witness_nog as (Hq & _ & _ & _ & _ & _ & Hbad).
   pose proof (outcome_ok_of cfg_nog drive proxy_src Hq (H cfg_nog drive Hq)) as K.
-  unfold final, trace in K. rewrite K in Hbad. exact (Bool.diff_true_false Hbad).
+  rewrite K in Hbad. exact (Bool.diff_true_false Hbad).
 Qed.
 Lemma refuted_upf : ~ outcome_statement proxy_src.
 Proof.
   intros H. destruct witness_upf as (Hq & _ & _ & _ & _ & Hbad).
   pose proof (outcome_ok_of cfg_upf sched_upf proxy_src Hq (H cfg_upf sched_upf Hq)) as K.
-  unfold final, trace in K. rewrite K in Hbad. exact (Bool.diff_true_false Hbad).
+  rewrite K in Hbad. exact (Bool.diff_true_false Hbad).
 Qed.
 
 (* non-vacuity example for the family theorems *)
 Lemma allowed_drive : Forall allowed drive.
-Proof. unfold drive. apply Forall_concat. apply Forall_forall. intros l Hl. apply repeat_spec in Hl. subst l. repeat constructor. Qed.
+Proof. unfold drive. apply Forall_concat. apply Forall_forall. intros l Hl. apply repeat_spec in Hl. subst l. repeat (apply Forall_cons || apply Forall_nil); exact I. Qed.
 
 Lemma c03_example_holds :
-  let c := mk false true false RouteForward 2 true 0 [] true 1 [] [] [PoolConnFail] in
+  let c := mk false false false RouteForward 2 true 0 [] true 1 [] [] [PoolConnFail] in
   let sched := drive ++ [Env (EvUpResp 1 503 true false)] ++ drive ++ [Env (EvUpResp 2 200 true true)] ++ drive in
   In c family /\ Forall allowed sched /\ quiescent (final proxy_src c sched) = true /\ no_defect (final proxy_src c sched) = true /\
   g_ended (summ proxy_src c sched) = true /\ g_new (summ proxy_src c sched) = 3%nat.
@@ -208,6 +203,6 @@ Proof.
   cbn zeta. split; [|split].
   - unfold family. apply in_or_app. right. apply in_or_app. right. apply in_or_app. left.
     vm_compute. repeat (first [left; reflexivity | right]).
-  - repeat (apply Forall_app; split); try apply allowed_drive; repeat constructor; cbn; auto.
+  - repeat (apply Forall_app; split); try apply allowed_drive; repeat (apply Forall_cons || apply Forall_nil); cbn; auto.
   - vm_compute. repeat split; reflexivity.
 Qed.
